@@ -656,7 +656,11 @@ func (t *T) block(l []ast.Stmt, k kont) (string, error) {
 		return fmt.Sprintf("let %s := %s in\n  %s", t.env[id.Name].coq, v, r), err
 	case *ast.IfStmt:
 		if s.Init != nil {
-			return "", t.errf(s, "if with init")
+			// if v := E; C { ... }   =   v := E; if C { ... }   (v is not visible afterwards in Go;
+			// a later redefinition simply shadows it here)
+			plain := *s
+			plain.Init = nil
+			return t.block(append([]ast.Stmt{s.Init, &plain}, l[1:]...), k)
 		}
 		save := func() map[string]*varInfo {
 			m := map[string]*varInfo{}
